@@ -33,12 +33,17 @@ pub fn run(seed: u64, rounds: u64) -> StressOut {
         let token = if present { store.set(k.clone(), Record::new(key("v0"), 0, 0, 0)).unwrap().cas } else { 7 };
         let wins = Arc::new(AtomicUsize::new(0));
         let barrier = Arc::new(Barrier::new(nthreads));
+        // through MemcStore (what the handlers call); in half of the rounds every contender writes the very same bytes
+        // (the "flip a flag to taken" idiom): a spent CAS must not be honoured again because the payload looks familiar
+        let same_payload = (round / 2) % 2 == 0;
+        let memc = Arc::new(memcrs::memcache::store::MemcStore::new(store.clone()));
         let hs: Vec<_> = (0..nthreads)
             .map(|i| {
-                let (store, k, wins, barrier) = (store.clone(), k.clone(), wins.clone(), barrier.clone());
+                let (store, k, wins, barrier) = (memc.clone(), k.clone(), wins.clone(), barrier.clone());
                 std::thread::spawn(move || {
                     barrier.wait();
-                    if store.set(k, Record::new(key(&format!("w{}", i)), token, 0, 0)).is_ok() {
+                    let payload = if same_payload { "taken".to_string() } else { format!("w{}", i) };
+                    if store.set(k, Record::new(key(&payload), token, 0, 0)).is_ok() {
                         wins.fetch_add(1, Ordering::SeqCst);
                     }
                 })
